@@ -123,8 +123,18 @@ def coq_project_files():
             files.append(line)
     return files
 
+PROJECT_HEADER = """-Q theories KV
+-arg -w -arg -notation-overridden,-ambiguous-paths,-deprecated-hint-without-locality,-deprecated-instance-without-locality
+"""
+
+def gen_coq_project():
+    """_CoqProject = every .v under theories/ except Props/* (compiled by ./check itself). Order is irrelevant (coqdep)."""
+    files = [os.path.relpath(v, COQ) for v in coq_sources() if "/Props/" not in v]
+    write_if_changed(os.path.join(COQ, "_CoqProject"), PROJECT_HEADER + "\n".join(files) + "\n")
+
 def coq_build(timeout=2400):
     """Full .vo build of everything in _CoqProject (make -k). Stale .vo of edited sources are removed first."""
+    gen_coq_project()
     for v in coq_sources():
         vo = v[:-2] + ".vo"
         if os.path.exists(vo) and os.path.getmtime(v) > os.path.getmtime(vo):
@@ -270,16 +280,17 @@ def eval_cases(outdir, meta, timeout=1500):
 # ---------------------------------------------------------------- known findings
 def known_findings(prop):
     out = []
-    p = os.path.join(ROOT, "known-findings.txt")
-    if not os.path.exists(p):
-        return out
-    for line in open(p):
-        line = line.strip()
-        if not line.startswith("finding:"):
+    paths = [os.path.join(ROOT, "known-findings.txt")] + sorted(glob.glob(os.path.join(ROOT, "findings.d", "*.txt")))
+    for p in paths:
+        if not os.path.exists(p):
             continue
-        m = re.match(r"finding:\s+property=(\S+)\s+class=(\S+)\s*(.*)", line)
-        if m and m.group(1) == prop:
-            out.append(dict(cls=m.group(2), text=m.group(3)))
+        for line in open(p):
+            line = line.strip()
+            if not line.startswith("finding:"):
+                continue
+            m = re.match(r"finding:\s+property=(\S+)\s+class=(\S+)\s*(.*)", line)
+            if m and m.group(1) == prop:
+                out.append(dict(cls=m.group(2), text=m.group(3)))
     return out
 
 # ---------------------------------------------------------------- evidence + verdict
